@@ -126,6 +126,17 @@ class NormStore(ce.MemStore):
         return ("norm", self.key, v)
 
 
+class FalsyNormStore(NormStore):
+    """as `cache_explore.FalsyStore`: a store object whose truth value is False"""
+
+    def __len__(self):
+        return 0
+
+
+def store_for(i, env):
+    return (FalsyNormStore if i % 3 == 1 else NormStore)(i, env)
+
+
 def build_phys(spec, env):
     b = ce.Built()
     b.plan = uberjob.Plan()
@@ -161,10 +172,10 @@ def build_phys(spec, env):
         nd = nodes[i]
         k = nd["kind"]
         if op == "reg":
-            b.stores[i] = NormStore(i, env)
+            b.stores[i] = store_for(i, env)
             b.reg.add(b.N[i], b.stores[i])
         elif k in SOURCES:
-            b.stores[i] = NormStore(i, env)
+            b.stores[i] = store_for(i, env)
             b.N[i] = b.reg.source(b.plan, b.stores[i])
         elif k in LITS:
             b.N[i] = b.plan.lit(("l", i))
